@@ -363,6 +363,16 @@ def run(ctx) -> None:
         recipe = G.random_recipe(rng, conv, ctx.tier)
         do_dataset(ctx, recipe, items, f'conv:{conv}')
 
+    # (a') neighbouring cells that spell a shared zero bound differently (-0.0 / 0.0): still one vertex
+    for _ in range(ctx.budget(6, 30)):
+        def axis():
+            n = rng.randint(1, 3)
+            vals = list(range(-(2 * n - 1), 2 * n, 2))       # ... -3 -1 1 3 ...: a cell boundary at 0
+            return vals[::-1] if rng.random() < 0.4 else vals
+        recipe = {'conv': 'cf1d', 'lat': axis(), 'lon': axis(), 'bounds': 'contig', 'neg_zero': True,
+                  'ydim': 'lat', 'xdim': 'lon', 'latname': 'lat', 'lonname': 'lon'}
+        do_dataset(ctx, recipe, items, 'conv:cf1d:neg-zero')
+
     # (b) every rotation and both windings of every template with <= 8 sides (thorough: all)
     polys, labels = [], []
     for name, tpl in T.TEMPLATES.items():
